@@ -1,5 +1,1025 @@
-//! C12 placeholder (being written)
+//! C12 — ACL enforcement never leaks a denied frame.
+//!
+//! Streams:
+//!  (A) decision level: random ACL metadata × caller contexts against the crate-private
+//!      `normalize_scalar` / `parse_acl_list` / `parse_acl_metadata` / `normalize_acl_context` /
+//!      `evaluate_acl_metadata` (through `verif_hooks`), compared with the Lean model (`drv_c12`) and
+//!      with an independent Rust re-statement of the rule (the oracle's decision function);
+//!  (B) end to end on real `.mv2` files: frames with ACL `extra_metadata`, then
+//!      `apply_acl_to_search_hits` (hook), `search`, `vec_search_with_embedding_acl`,
+//!      `search_adaptive_acl` and `ask` in no-ACL / Audit / Enforce mode.
+//! Oracle (independent of the model): under Enforce every returned hit / citation / fragment
+//! belongs to a frame the rule allows and no text returned (hit text, context, fragments, answer)
+//! contains the unique marker of a denied frame; Enforce without a tenant is an error; Audit equals
+//! the no-ACL answer.
+use memvid_core::types::{
+    ACL_READ_GROUPS_KEY, ACL_READ_PRINCIPALS_KEY, ACL_READ_ROLES_KEY, ACL_TENANT_ID_KEY, ACL_VISIBILITY_KEY,
+    AclContext, AclEnforcementMode, AdaptiveConfig, AskMode, AskRequest, AskResponse, PutOptions, SearchHit,
+    SearchRequest, SearchResponse, VecEmbedder,
+};
 use memvid_core::verif_hooks as vh;
+use memvid_core::{Memvid, find_adaptive_cutoff};
+use mvh::*;
+use serde::{Deserialize, Serialize};
+use std::collections::{BTreeMap, BTreeSet};
+
+// ------------------------------------------------------------------------------------------
+// plain data
+
+#[derive(Clone, Debug, Serialize, Deserialize, PartialEq)]
+struct Ctx {
+    present: bool,
+    tenant: Option<String>,
+    subject: Option<String>,
+    roles: Vec<String>,
+    groups: Vec<String>,
+}
+
+impl Ctx {
+    fn absent() -> Ctx { Ctx { present: false, tenant: None, subject: None, roles: vec![], groups: vec![] } }
+    fn to_acl(&self) -> Option<AclContext> {
+        self.present.then(|| AclContext {
+            tenant_id: self.tenant.clone(), subject_id: self.subject.clone(),
+            roles: self.roles.clone(), group_ids: self.groups.clone(),
+        })
+    }
+    fn wire(&self) -> String {
+        format!("{} {} {} {} {}", if self.present { 1 } else { 0 }, wopt(self.tenant.as_deref()),
+            wopt(self.subject.as_deref()), wlist(&self.roles), wlist(&self.groups))
+    }
+}
+
+type Meta = BTreeMap<String, String>;
+
+#[derive(Clone, Debug, Serialize, Deserialize)]
+struct FrameDef {
+    text: String,
+    uri: Option<String>,
+    ts: i64,
+    meta: Meta,
+    emb: Option<Vec<f32>>,
+}
+
+#[derive(Clone, Debug, Serialize, Deserialize)]
+#[serde(tag = "op")]
+enum Op {
+    Apply { ids: Vec<u64> },
+    Search { query: String, top_k: usize, as_of_ts: Option<i64> },
+    Vec { emb: Vec<f32>, top_k: usize },
+    Adaptive { emb: Vec<f32>, enabled: bool, max_results: usize, min_results: usize },
+    Ask { question: String, top_k: usize, mode: String, context_only: bool, embedder: bool, adaptive: bool },
+}
+
+#[derive(Clone, Debug, Serialize, Deserialize)]
+#[serde(tag = "kind")]
+enum Case {
+    Scalar { value: Option<String> },
+    List { value: Option<String> },
+    Eval { meta: Meta, ctx: Ctx },
+    E2e { frames: Vec<FrameDef>, vec: bool, ctx: Ctx, op: Op },
+}
+
+// ------------------------------------------------------------------------------------------
+// wire helpers
+fn wstr(s: &str) -> String { hexw(s.as_bytes()) }
+fn wopt(s: Option<&str>) -> String { match s { None => "~".into(), Some(s) => wstr(s) } }
+fn wlist(l: &[String]) -> String {
+    if l.is_empty() { ".".into() } else { l.iter().map(|s| wstr(s)).collect::<Vec<_>>().join(",") }
+}
+fn wset(l: &[String]) -> String {
+    let s: BTreeSet<&String> = l.iter().collect();
+    if s.is_empty() { ".".into() } else { s.iter().map(|s| wstr(s)).collect::<Vec<_>>().join(",") }
+}
+fn wmeta(m: &Meta) -> String {
+    if m.is_empty() { ".".into() } else { m.iter().map(|(k, v)| format!("{}:{}", wstr(k), wstr(v))).collect::<Vec<_>>().join(",") }
+}
+fn wids(ids: &[u64]) -> String {
+    if ids.is_empty() { ".".into() } else { ids.iter().map(|i| i.to_string()).collect::<Vec<_>>().join(",") }
+}
+fn whits(h: &[(u64, usize)]) -> String {
+    if h.is_empty() { ".".into() } else { h.iter().map(|(f, r)| format!("{f}:{r}")).collect::<Vec<_>>().join(",") }
+}
+
+// ------------------------------------------------------------------------------------------
+// the rule, restated independently (serde_json::Value instead of typed deserialisation, own
+// lower-casing); used only by the oracle
+fn o_norm(v: Option<&str>) -> Option<String> {
+    let t = v?.trim();
+    if t.is_empty() { return None; }
+    let u = match serde_json::from_str::<Value>(t) {
+        Ok(Value::String(s)) => s.trim().to_string(),
+        _ => t.to_string(),
+    };
+    if u.is_empty() { return None; }
+    Some(u.chars().map(|c| if ('A'..='Z').contains(&c) { ((c as u8) + 32) as char } else { c }).collect())
+}
+
+fn o_list(meta: &Meta, key: &str) -> Result<BTreeSet<String>, ()> {
+    let Some(raw) = meta.get(key) else { return Ok(BTreeSet::new()) };
+    match serde_json::from_str::<Value>(raw) {
+        Ok(Value::Array(items)) => {
+            let mut out = BTreeSet::new();
+            for it in items {
+                match it {
+                    Value::String(s) => { out.insert(o_norm(Some(&s)).ok_or(())?); }
+                    _ => return Err(()),
+                }
+            }
+            Ok(out)
+        }
+        _ => Err(()),
+    }
+}
+
+struct ONorm { tenant: String, subject: Option<String>, roles: BTreeSet<String>, groups: BTreeSet<String> }
+
+fn o_ctx(c: &Ctx) -> Option<ONorm> {
+    if !c.present { return None; }
+    let tenant = o_norm(c.tenant.as_deref())?;
+    Some(ONorm {
+        tenant,
+        subject: c.subject.as_deref().and_then(|s| o_norm(Some(s))),
+        roles: c.roles.iter().filter_map(|r| o_norm(Some(r))).collect(),
+        groups: c.groups.iter().filter_map(|g| o_norm(Some(g))).collect(),
+    })
+}
+
+/// decision of the rule for a caller with a tenant
+fn o_decide(meta: &Meta, n: &ONorm) -> &'static str {
+    let Some(tenant) = o_norm(meta.get(ACL_TENANT_ID_KEY).map(String::as_str)) else { return "deny:missing-metadata" };
+    let Some(vis) = o_norm(meta.get(ACL_VISIBILITY_KEY).map(String::as_str)) else { return "deny:missing-metadata" };
+    if vis != "public" && vis != "restricted" { return "deny:missing-metadata"; }
+    let (Ok(roles), Ok(groups), Ok(principals)) =
+        (o_list(meta, ACL_READ_ROLES_KEY), o_list(meta, ACL_READ_GROUPS_KEY), o_list(meta, ACL_READ_PRINCIPALS_KEY))
+    else { return "deny:missing-metadata" };
+    if tenant != n.tenant { return "deny:cross-tenant"; }
+    if vis == "public" { return "allow"; }
+    let p = n.subject.as_ref().is_some_and(|s| principals.contains(s));
+    let r = n.roles.iter().any(|x| roles.contains(x));
+    let g = n.groups.iter().any(|x| groups.contains(x));
+    if p || r || g { "allow" } else { "deny:restricted" }
+}
+
+// ------------------------------------------------------------------------------------------
+// generators
+
+const WS: &[&str] = &[" ", "\t", "\n", "\r", "\u{a0}", "\u{2003}", "\u{3000}", "\u{85}", "\u{1680}", "\u{2028}", "\u{b}", "\u{c}"];
+const NOT_WS: &[&str] = &["\u{200b}", "\u{feff}", "\u{180e}", "\u{1c}", "\u{0}"];
+const WORDS: &[&str] = &["t1", "T1", "t2", "Tenant-A", "tenant-a", "admin", "Admin", "ANALYST", "eng", "Ops", "user-123",
+    "USER-123", "É", "é", "İx", "ß", "K", "k", "public", "restricted", "Public", "RESTRICTED", "a b", "x\"y", "x\\y", "😀"];
+
+fn pk<'a>(rng: &mut Rng, xs: &[&'a str]) -> &'a str { xs[rng.below(xs.len() as u64) as usize] }
+
+fn pad(rng: &mut Rng, s: &str) -> String {
+    let mut o = String::new();
+    for _ in 0..rng.below(3) { o.push_str(pk(rng, WS)); }
+    o.push_str(s);
+    for _ in 0..rng.below(3) { o.push_str(pk(rng, WS)); }
+    o
+}
+
+/// JSON string literal for `s` with random escape styles (all inside what serde_json accepts)
+fn json_quote(rng: &mut Rng, s: &str) -> String {
+    let mut o = String::from("\"");
+    for c in s.chars() {
+        let style = rng.below(6);
+        match c {
+            '"' => o.push_str("\\\""),
+            '\\' => o.push_str("\\\\"),
+            '/' if style == 0 => o.push_str("\\/"),
+            '\n' => o.push_str("\\n"),
+            '\r' => o.push_str("\\r"),
+            '\t' => o.push_str("\\t"),
+            '\u{8}' => o.push_str("\\b"),
+            '\u{c}' => o.push_str("\\f"),
+            c if (c as u32) < 0x20 => o.push_str(&format!("\\u{:04x}", c as u32)),
+            c if style == 1 => {
+                let mut buf = [0u16; 2];
+                for u in c.encode_utf16(&mut buf) {
+                    if rng.bool() { o.push_str(&format!("\\u{:04x}", u)); } else { o.push_str(&format!("\\u{:04X}", u)); }
+                }
+            }
+            c => o.push(c),
+        }
+    }
+    o.push('"');
+    o
+}
+
+/// near-JSON that serde_json must reject (or accept in a surprising way)
+fn json_malformed(rng: &mut Rng) -> String {
+    let pool: &[&str] = &[
+        "\"abc", "abc\"", "\"a\"b", "\"a\" \"b\"", "\"\\x41\"", "\"\\u12\"", "\"\\u12G4\"", "\"\\ud800\"", "\"\\udc00\"",
+        "\"\\ud800\\u0041\"", "\"\\ud800x\"", "\"\\ud800\\n\"", "\"\\ud83d\\ude00\"", "\"\\uD83D\\uDE00\"", "\"\\ud83d\\ud83d\"",
+        "\"a\u{1}b\"", "\"a\tb\"", "\"a\\tb\"", "'abc'", "\"\"", "\" \"", "\"\\u0020\"", "\"\\u00a0x\\u00A0\"", "\"\\u0000\"",
+        "null", "true", "12", "[\"a\"]", "{\"a\":1}", "\"a\"\u{a0}", "\u{feff}\"a\"", "\"\\", "\"\\u", "\"\\ud83d\\", "\"\\ud83d\\u",
+        "\"\\ud83d\\ude0\"", "\"é\\u00e9\\u00C9\"", "\"\\/\\b\\f\"", "\"\\\"q\\\"\"", "\"\\\\\"",
+    ];
+    (pk(rng, pool)).to_string()
+}
+
+fn gen_scalar(rng: &mut Rng) -> Option<String> {
+    match rng.below(16) {
+        0 => None,
+        1 => Some(String::new()),
+        2 => Some((0..rng.usize(1, 3)).map(|_| pk(rng, WS)).collect()),
+        3 | 4 => { let w = pk(rng, WORDS); Some(pad(rng, w)) }
+        5 | 6 => { let w = pk(rng, WORDS); let q = json_quote(rng, w); Some(pad(rng, &q)) }
+        7 => { let w0 = pk(rng, WORDS); let w = pad(rng, w0); let q = json_quote(rng, &w); Some(pad(rng, &q)) }   // white space inside the quotes
+        8 => { let w = pk(rng, WORDS); let q = json_quote(rng, w); let qq = json_quote(rng, &q); Some(qq) }  // doubly quoted
+        9 | 10 => { let m = json_malformed(rng); Some(pad(rng, &m)) }
+        11 => { let w = pk(rng, WORDS); Some(format!("{}{}{}", pk(rng, NOT_WS), w, pk(rng, NOT_WS))) }
+        12 => { let w: String = (0..rng.usize(1, 3)).map(|_| pk(rng, NOT_WS)).collect(); Some(json_quote(rng, &w)) }
+        _ => {
+            // random soup over the characters the parsers care about
+            let alpha: Vec<char> = "\"\"\\\\/bfnrtu0123dDcCeEaAfF [],xX\u{a0}\u{1}é😀".chars().collect();
+            Some((0..rng.usize(1, 10)).map(|_| *rng.pick(&alpha)).collect())
+        }
+    }
+}
+
+fn gen_list_raw(rng: &mut Rng, pool: &[&str]) -> String {
+    match rng.below(14) {
+        0 => "[]".into(),
+        1 => pad(rng, "[ ]"),
+        2 => { // malformed arrays
+            let p: &[&str] = &["eng,ops", "[\"a\",]", "[,\"a\"]", "[1]", "[null]", "[\"a\" \"b\"]", "null", "\"a\"", "{}", "[[\"a\"]]",
+                "[\"a\"] x", "[\"a\"", "[", "", " ", "[\"a\",,\"b\"]", "[\"a\"]]", "[\"\"]", "[\" \"]", "[\"\\\"\\\"\"]", "[\"a\",\"\\ud800\"]",
+                "[\"a\"\u{a0}]", "\u{a0}[\"a\"]", "[\"a\"]\u{a0}", "[true]", "[\"a\",1]"];
+            (pk(rng, p)).to_string()
+        }
+        _ => {
+            let n = rng.usize(1, 4);
+            let mut o = String::new();
+            if rng.chance(1, 5) { o.push_str(pk(rng, &[" ", "\n", "\t", "\r"])); }
+            o.push('[');
+            for i in 0..n {
+                if i > 0 { o.push(','); }
+                if rng.chance(1, 4) { o.push_str(pk(rng, &[" ", "\n", "\t", "\r"])); }
+                let w = pk(rng, pool);
+                let item = match rng.below(8) {
+                    0 => pad(rng, w),
+                    1 => json_quote(rng, w),          // item that is itself a JSON string literal
+                    _ => w.to_string(),
+                };
+                o.push_str(&json_quote(rng, &item));
+                if rng.chance(1, 4) { o.push_str(pk(rng, &[" ", "\n", "\t", "\r"])); }
+            }
+            o.push(']');
+            if rng.chance(1, 5) { o.push_str(pk(rng, &[" ", "\n", "\t", "\r"])); }
+            o
+        }
+    }
+}
+
+const TENANTS: &[&str] = &["t1", "T1", "t2", "tenant-a", "Tenant-A", "É"];
+const ROLES: &[&str] = &["admin", "Admin", "analyst", "viewer", "ops"];
+const GROUPS: &[&str] = &["eng", "ENG", "ops", "sales"];
+const PRINCIPALS: &[&str] = &["user-123", "USER-123", "bob", "alice"];
+
+fn gen_scalar_from(rng: &mut Rng, pool: &[&str]) -> String {
+    let w = pk(rng, pool);
+    match rng.below(10) {
+        0 => pad(rng, w),
+        1 => json_quote(rng, w),
+        2 => { let q = json_quote(rng, w); pad(rng, &q) }
+        3 => { let p = pad(rng, w); json_quote(rng, &p) }
+        _ => w.to_string(),
+    }
+}
+
+fn gen_meta(rng: &mut Rng) -> Meta {
+    let mut m = Meta::new();
+    match rng.below(12) {
+        0 => {}                                                               // missing tenant
+        1 => { m.insert(ACL_TENANT_ID_KEY.into(), gen_scalar(rng).unwrap_or_default()); }
+        2 => { m.insert(pk(rng, &["ACL_TENANT_ID", "acl_tenant_id ", "acl_tenantid", "tenant_id"]).to_string(), "t1".into()); }
+        _ => { m.insert(ACL_TENANT_ID_KEY.into(), gen_scalar_from(rng, TENANTS)); }
+    }
+    match rng.below(12) {
+        0 => {}
+        1 => { m.insert(ACL_VISIBILITY_KEY.into(), gen_scalar(rng).unwrap_or_default()); }
+        2 => { m.insert(ACL_VISIBILITY_KEY.into(), pk(rng, &["private", "publi", "public!", "restricted ", "\"Restricted\"", "pub lic", "publıc"]).to_string()); }
+        3..=6 => { m.insert(ACL_VISIBILITY_KEY.into(), gen_scalar_from(rng, &["public", "Public", "PUBLIC"])); }
+        _ => { m.insert(ACL_VISIBILITY_KEY.into(), gen_scalar_from(rng, &["restricted", "Restricted", "RESTRICTED"])); }
+    }
+    for (key, pool) in [(ACL_READ_ROLES_KEY, ROLES), (ACL_READ_GROUPS_KEY, GROUPS), (ACL_READ_PRINCIPALS_KEY, PRINCIPALS)] {
+        if rng.chance(3, 5) { m.insert(key.into(), gen_list_raw(rng, pool)); }
+    }
+    if rng.chance(1, 4) { m.insert("acl_resource_id".into(), "res-1".into()); }
+    if rng.chance(1, 6) { m.insert("note".into(), "[\"admin\"]".into()); }
+    m
+}
+
+fn gen_ctx(rng: &mut Rng) -> Ctx {
+    if rng.chance(1, 14) { return Ctx::absent(); }
+    let tenant = match rng.below(14) {
+        0 => None,
+        1 => Some(pk(rng, &["", " ", "\"\"", "\" \"", "\u{a0}", "\"\\u0020\""]).to_string()),
+        2 => gen_scalar(rng),
+        _ => Some(gen_scalar_from(rng, TENANTS)),
+    };
+    let subject = match rng.below(4) { 0 => None, 1 => gen_scalar(rng), _ => Some(gen_scalar_from(rng, PRINCIPALS)) };
+    let roles = (0..rng.below(3)).map(|_| if rng.chance(1, 8) { gen_scalar(rng).unwrap_or_default() } else { gen_scalar_from(rng, ROLES) }).collect();
+    let groups = (0..rng.below(3)).map(|_| if rng.chance(1, 8) { gen_scalar(rng).unwrap_or_default() } else { gen_scalar_from(rng, GROUPS) }).collect();
+    Ctx { present: true, tenant, subject, roles, groups }
+}
+
+/// metadata for the end-to-end corpora: mostly valid, tenant t1/t2, so that contexts both hit and miss
+fn gen_meta_e2e(rng: &mut Rng) -> Meta {
+    if rng.chance(1, 5) { return gen_meta(rng); }
+    if rng.chance(1, 10) { return Meta::new(); }
+    let mut m = Meta::new();
+    m.insert(ACL_TENANT_ID_KEY.into(), gen_scalar_from(rng, &["t1", "T1", "t2"]));
+    let vis = if rng.chance(2, 5) { "public" } else { "restricted" };
+    m.insert(ACL_VISIBILITY_KEY.into(), gen_scalar_from(rng, &[vis]));
+    for (key, pool) in [(ACL_READ_ROLES_KEY, ROLES), (ACL_READ_GROUPS_KEY, GROUPS), (ACL_READ_PRINCIPALS_KEY, PRINCIPALS)] {
+        if rng.chance(1, 2) {
+            let n = rng.usize(0, 2);
+            let items: Vec<String> = (0..n).map(|_| pk(rng, pool).to_string()).collect();
+            m.insert(key.into(), serde_json::to_string(&items).unwrap());
+        }
+    }
+    m
+}
+
+fn gen_ctx_e2e(rng: &mut Rng) -> Ctx {
+    if rng.chance(1, 6) { return gen_ctx(rng); }
+    Ctx {
+        present: true,
+        tenant: Some(gen_scalar_from(rng, &["t1", "t1", "T1", "t2"])),
+        subject: if rng.bool() { Some(pk(rng, PRINCIPALS).to_string()) } else { None },
+        roles: (0..rng.below(3)).map(|_| pk(rng, ROLES).to_string()).collect(),
+        groups: (0..rng.below(3)).map(|_| pk(rng, GROUPS).to_string()).collect(),
+    }
+}
+
+fn marker(i: usize) -> String { format!("zqx{i:03}w") }
+
+const TOPICS: &[&str] = &["alpha", "beta", "gamma", "budget", "deploy"];
+
+fn gen_emb(rng: &mut Rng) -> Vec<f32> { (0..4).map(|_| (rng.below(2001) as f32 - 1000.0) / 1000.0).collect() }
+
+fn gen_frames(rng: &mut Rng, vec: bool) -> Vec<FrameDef> {
+    let n = rng.usize(3, 10);
+    (0..n).map(|i| {
+        let mut words: Vec<String> = vec!["memo".into(), marker(i)];
+        for _ in 0..rng.usize(2, 5) { words.push(pk(rng, TOPICS).to_string()); }
+        words.push(format!("note{}", i));
+        if rng.chance(1, 3) { words.push("the current budget is".into()); words.push(format!("{}", 100 + i)); }
+        let uri = match rng.below(8) {
+            0 => None,
+            1 => Some(format!("mv2://correction/{i}")),
+            _ => Some(format!("mv2://doc/{i}")),
+        };
+        FrameDef {
+            text: words.join(" "),
+            uri,
+            ts: 1_700_000_000 + (rng.below(1000) as i64) * 86_400,
+            meta: gen_meta_e2e(rng),
+            emb: if vec && rng.chance(5, 6) { Some(gen_emb(rng)) } else { None },
+        }
+    }).collect()
+}
+
+fn gen_op(rng: &mut Rng, n: usize, vec: bool) -> Op {
+    let kind = rng.below(if vec { 10 } else { 6 });
+    match kind {
+        0 => Op::Apply { ids: (0..rng.usize(0, 8)).map(|_| rng.below(n as u64 + 2)).collect() },
+        1 | 2 => {
+            let query = match rng.below(6) {
+                0 => format!("{} OR {}", pk(rng, TOPICS), pk(rng, TOPICS)),
+                1 => "memo".to_string(),
+                2 => marker(rng.usize(0, n - 1)),
+                _ => pk(rng, TOPICS).to_string(),
+            };
+            Op::Search { query, top_k: rng.usize(1, n + 3), as_of_ts: if rng.chance(1, 8) { Some(-5) } else { None } }
+        }
+        3..=5 => {
+            let question = match rng.below(8) {
+                0 => format!("what is the latest {}", pk(rng, TOPICS)),
+                1 => format!("compare {} and {} over time", pk(rng, TOPICS), pk(rng, TOPICS)),
+                2 => format!("how many {} memos are there in total", pk(rng, TOPICS)),
+                3 => "what is the current budget".to_string(),
+                4 => "xylophone quartz".to_string(),                                  // no hit: timeline fallback
+                5 => format!("{}s", pk(rng, TOPICS)),                                // plural: expanded query fallback
+                _ => format!("{} {}", pk(rng, TOPICS), pk(rng, TOPICS)),
+            };
+            Op::Ask {
+                question, top_k: if rng.bool() { n + 2 } else { rng.usize(1, 6) },
+                mode: pk(rng, &["lex", "sem", "hybrid"]).to_string(), context_only: rng.chance(1, 3),
+                embedder: vec && rng.chance(2, 3), adaptive: vec && rng.chance(1, 4),
+            }
+        }
+        6 | 7 => Op::Vec { emb: gen_emb(rng), top_k: if rng.chance(1, 8) { 0 } else { rng.usize(1, n + 2) } },
+        _ => Op::Adaptive { emb: gen_emb(rng), enabled: rng.chance(3, 4), max_results: rng.usize(1, n + 2), min_results: rng.usize(0, 3) },
+    }
+}
+
+// ------------------------------------------------------------------------------------------
+// stream A: decision level
+
+fn run_scalar(v: &Option<String>, drv: &mut Option<Driver>, sum: &mut Summary) {
+    let imp = match vh::acl_normalize_scalar(v.as_deref()) { None => "none".to_string(), Some(s) => format!("some {}", wstr(&s)) };
+    let ora = match o_norm(v.as_deref()) { None => "none".to_string(), Some(s) => format!("some {}", wstr(&s)) };
+    let case = serde_json::to_value(Case::Scalar { value: v.clone() }).unwrap();
+    if let Some(v) = v {
+        let t = v.trim();
+        if t.starts_with('"') && serde_json::from_str::<String>(t).is_ok() { sum.branch("scalar-json-unwrapped"); }
+        else if t.starts_with('"') { sum.branch("scalar-quote-but-not-json"); }
+        if t.contains("\\u") && serde_json::from_str::<String>(t).is_ok() { sum.branch("scalar-unicode-escape"); }
+    }
+    sum.branch(if imp == "none" { "scalar-none" } else { "scalar-some" });
+    if imp != ora {
+        sum.oracle_violation("normalize-scalar-differs-from-rule", &format!("impl={imp} rule={ora}"), case.clone());
+    }
+    if let Some(d) = drv {
+        let model = d.ask(&format!("ns {}", wopt(v.as_deref())));
+        if model != imp { sum.disagreement("normalize_scalar vs model", case.clone(), &model, &imp); }
+        // the JSON string parser on its own (no trim around it)
+        if let Some(v) = v {
+            let imp_j = match serde_json::from_str::<String>(v) { Ok(s) => format!("some {}", wstr(&s)), Err(_) => "none".into() };
+            let model_j = d.ask(&format!("jstr {}", wstr(v)));
+            if model_j != imp_j { sum.disagreement("serde_json::from_str::<String> vs model parseJsonString", case.clone(), &model_j, &imp_j); }
+        }
+    }
+    sum.case(&format!("scalar|{v:?}"), v.as_deref().is_some_and(|s| !s.trim().is_empty()), || json!({"scalar": v, "impl": imp}));
+}
+
+fn run_list(v: &Option<String>, drv: &mut Option<Driver>, sum: &mut Summary) {
+    let imp = match vh::acl_parse_list(v.as_deref()) { None => "err".to_string(), Some(l) => format!("ok {}", wset(&l)) };
+    let mut m = Meta::new();
+    if let Some(v) = v { m.insert("k".into(), v.clone()); }
+    let ora = match o_list(&m, "k") { Err(()) => "err".to_string(), Ok(s) => format!("ok {}", wset(&s.into_iter().collect::<Vec<_>>())) };
+    let case = serde_json::to_value(Case::List { value: v.clone() }).unwrap();
+    sum.branch(if imp == "err" { "list-rejected" } else if imp == "ok ." { "list-empty" } else { "list-some" });
+    if imp != ora { sum.oracle_violation("parse-acl-list-differs-from-rule", &format!("impl={imp} rule={ora}"), case.clone()); }
+    if let Some(d) = drv {
+        let model = d.ask(&format!("list {}", wopt(v.as_deref())));
+        if model != imp { sum.disagreement("parse_acl_list vs model", case.clone(), &model, &imp); }
+    }
+    sum.case(&format!("list|{v:?}"), v.is_some(), || json!({"list": v, "impl": imp}));
+}
+
+fn run_eval(meta: &Meta, ctx: &Ctx, drv: &mut Option<Driver>, sum: &mut Summary) {
+    let case = serde_json::to_value(Case::Eval { meta: meta.clone(), ctx: ctx.clone() }).unwrap();
+    let imp = vh::acl_evaluate(meta, ctx.present, ctx.tenant.as_deref(), ctx.subject.as_deref(), &ctx.roles, &ctx.groups);
+    let on = o_ctx(ctx);
+    let ora = match &on { None => "allow", Some(n) => o_decide(meta, n) };
+    let imp_p = match vh::acl_parse_metadata(meta) {
+        None => "err".to_string(),
+        Some((t, v, r, g, p)) => format!("ok {} {} {} {} {}", wstr(&t), v, wset(&r), wset(&g), wset(&p)),
+    };
+    let imp_c = match vh::acl_normalize_context(ctx.present, ctx.tenant.as_deref(), ctx.subject.as_deref(), &ctx.roles, &ctx.groups) {
+        None => "none".to_string(),
+        Some((t, s, r, g)) => format!("some {} {} {} {}", wstr(&t), wopt(s.as_deref()), wset(&r), wset(&g)),
+    };
+    if on.is_none() { sum.branch("eval-no-tenant-context"); } else { sum.branch(&format!("eval-{imp}")); }
+    if imp_p == "err" { sum.branch("meta-rejected"); } else { sum.branch("meta-parsed"); }
+    if imp != ora {
+        sum.oracle_violation("decision-differs-from-rule", &format!("impl={imp} rule={ora}"), case.clone());
+    }
+    if (imp_c == "none") != on.is_none() {
+        sum.oracle_violation("context-normalisation-differs-from-rule", &format!("impl={imp_c}"), case.clone());
+    }
+    if let Some(d) = drv {
+        let model = d.ask(&format!("eval {} {}", wmeta(meta), ctx.wire()));
+        if model != imp { sum.disagreement("evaluate_acl_metadata vs model", case.clone(), &model, &imp); }
+        let model_p = d.ask(&format!("pmeta {}", wmeta(meta)));
+        if model_p != imp_p { sum.disagreement("parse_acl_metadata vs model", case.clone(), &model_p, &imp_p); }
+        let model_c = d.ask(&format!("nctx {}", ctx.wire()));
+        if model_c != imp_c { sum.disagreement("normalize_acl_context vs model", case.clone(), &model_c, &imp_c); }
+    }
+    sum.case(&format!("eval|{}|{}", wmeta(meta), ctx.wire()), on.is_some(), || json!({"meta": meta, "ctx": ctx, "impl": imp}));
+}
+
+// ------------------------------------------------------------------------------------------
+// stream B: end to end
+
+struct Stub;
+impl VecEmbedder for Stub {
+    fn embed_query(&self, text: &str) -> memvid_core::Result<Vec<f32>> {
+        let h = blake3::hash(text.as_bytes());
+        Ok(h.as_bytes()[..4].iter().map(|b| (*b as f32 - 127.5) / 127.5).collect())
+    }
+    fn embedding_dimension(&self) -> usize { 4 }
+}
+
+struct World {
+    _dir: tempfile::TempDir,
+    mem: Memvid,
+    metas: Vec<Meta>,     // as stored (frame_by_id), index = frame id
+    markers: Vec<String>, // marker of frame i
+}
+
+fn build_world(frames: &[FrameDef], vec: bool) -> Result<World, String> {
+    // RAM-backed scratch space when available: commits fsync, and the machine may be busy
+    let dir = tempfile::tempdir_in("/dev/shm").or_else(|_| tempfile::tempdir()).map_err(|e| e.to_string())?;
+    let path = dir.path().join("c12.mv2");
+    let t0 = std::time::Instant::now();
+    let timing = std::env::var("C12_TIMING").is_ok();
+    let mut mem = Memvid::create(&path).map_err(|e| format!("create: {e}"))?;
+    if timing { eprintln!("  create {:?}", t0.elapsed()); }
+    mem.enable_lex().map_err(|e| format!("enable_lex: {e}"))?;
+    if timing { eprintln!("  enable_lex {:?}", t0.elapsed()); }
+    if vec { mem.enable_vec().map_err(|e| format!("enable_vec: {e}"))?; }
+    for (i, f) in frames.iter().enumerate() {
+        let mut o = PutOptions::default();
+        o.timestamp = Some(f.ts);
+        o.uri = f.uri.clone();
+        o.title = Some(format!("doc {i}"));
+        o.extra_metadata = f.meta.clone();
+        o.auto_tag = false;
+        o.extract_dates = false;
+        o.extract_triplets = false;
+        o.instant_index = false;
+        let r = match &f.emb {
+            Some(e) => mem.put_with_embedding_and_options(f.text.as_bytes(), e.clone(), o),
+            None => mem.put_bytes_with_options(f.text.as_bytes(), o),
+        };
+        r.map_err(|e| format!("put {i}: {e}"))?;
+    }
+    if timing { eprintln!("  puts {:?}", t0.elapsed()); }
+    mem.commit().map_err(|e| format!("commit: {e}"))?;
+    if timing { eprintln!("  commit {:?}", t0.elapsed()); }
+    let fc = mem.stats().map_err(|e| format!("stats: {e}"))?.frame_count;
+    if fc != frames.len() as u64 { return Err(format!("harness assumption broken: {} puts but frame_count {fc}", frames.len())); }
+    let mut metas = Vec::new();
+    for (i, f) in frames.iter().enumerate() {
+        let fr = mem.frame_by_id(i as u64).map_err(|e| format!("frame_by_id {i}: {e}"))?;
+        for (k, v) in &f.meta {
+            if fr.extra_metadata.get(k) != Some(v) { return Err(format!("harness assumption broken: frame {i} metadata key {k:?} not stored as given")); }
+        }
+        metas.push(fr.extra_metadata.clone());
+    }
+    Ok(World { _dir: dir, mem, metas, markers: (0..frames.len()).map(marker).collect() })
+}
+
+fn mode_of(enforce: bool) -> AclEnforcementMode { if enforce { AclEnforcementMode::Enforce } else { AclEnforcementMode::Audit } }
+
+fn search_req(query: &str, top_k: usize, as_of_ts: Option<i64>, ctx: Option<AclContext>, enforce: bool) -> SearchRequest {
+    SearchRequest {
+        query: query.to_string(), top_k, snippet_chars: 120, uri: None, scope: None, cursor: None,
+        as_of_frame: None, as_of_ts, no_sketch: false, acl_context: ctx, acl_enforcement_mode: mode_of(enforce),
+    }
+}
+
+fn canon_search(r: &SearchResponse) -> Value {
+    let mut v = serde_json::to_value(r).unwrap();
+    v.as_object_mut().unwrap().remove("elapsed_ms");
+    v
+}
+
+fn hit_pairs(h: &[SearchHit]) -> Vec<(u64, usize)> { h.iter().map(|x| (x.frame_id, x.rank)).collect() }
+
+struct Checker<'a> {
+    w: &'a World,
+    on: Option<ONorm>,
+    case: Value,
+    known: &'a BTreeSet<String>,
+}
+
+impl Checker<'_> {
+    fn allowed(&self, fid: u64) -> bool {
+        match (&self.on, self.w.metas.get(fid as usize)) {
+            (Some(n), Some(m)) => o_decide(m, n) == "allow",
+            (Some(_), None) => false,
+            (None, _) => true,
+        }
+    }
+    fn denied_markers(&self) -> Vec<&String> {
+        (0..self.w.metas.len()).filter(|i| !self.allowed(*i as u64)).map(|i| &self.w.markers[i]).collect()
+    }
+    /// no denied frame id among `ids`, no denied frame's marker inside `texts`
+    fn no_leak(&self, what: &str, ids: &[u64], texts: &[&str], sum: &mut Summary) {
+        for id in ids {
+            if !self.allowed(*id) {
+                let why = self.w.metas.get(*id as usize).map(|m| o_decide(m, self.on.as_ref().unwrap())).unwrap_or("deny:no-frame");
+                sum.oracle_violation("enforce-returned-denied-frame", &format!("{what}: frame {id} is returned although the rule says {why}"), self.case.clone());
+                return;
+            }
+        }
+        for mk in self.denied_markers() {
+            for t in texts {
+                if t.contains(mk.as_str()) {
+                    sum.oracle_violation("enforce-text-of-denied-frame", &format!("{what}: returned text contains the marker {mk} of a denied frame"), self.case.clone());
+                    return;
+                }
+            }
+        }
+    }
+    /// Enforce without a usable tenant must be an error that names the ACL context
+    fn needs_tenant<T>(&self, what: &str, r: &Result<T, memvid_core::MemvidError>, sum: &mut Summary) {
+        match r {
+            Err(e) if e.to_string().contains("acl_context") => sum.branch("enforce-without-tenant-error"),
+            Err(e) => sum.branch(&format!("enforce-without-tenant-other-error:{}", e.to_string().chars().take(30).collect::<String>())),
+            Ok(_) => {
+                let sig = "enforce-without-tenant-accepted";
+                let msg = format!("{what}: Enforce without a tenant returned Ok instead of an error");
+                if self.known.contains(sig) { sum.known_finding(sig, &msg, self.case.clone()); }
+                else { sum.oracle_violation(sig, &msg, self.case.clone()); }
+            }
+        }
+    }
+}
+
+fn texts_of(h: &[SearchHit]) -> Vec<&str> {
+    let mut v: Vec<&str> = Vec::new();
+    for x in h { v.push(&x.text); if let Some(c) = &x.chunk_text { v.push(c); } v.push(&x.uri); if let Some(t) = &x.title { v.push(t); } }
+    v
+}
+
+fn load_model_frames(w: &World, d: &mut Driver) {
+    d.ask("reset");
+    for (i, m) in w.metas.iter().enumerate() { d.ask(&format!("frame {i} {}", wmeta(m))); }
+}
+
+fn run_e2e_op(w: &mut World, ctx: &Ctx, op: &Op, case: Value, drv: &mut Option<Driver>, sum: &mut Summary, known: &BTreeSet<String>) {
+    let on = o_ctx(ctx);
+    let has_tenant = on.is_some();
+    let acl = ctx.to_acl();
+    let canon = format!("{}", case);
+    let mut nontrivial = false;
+    // the checker borrows the world immutably; the API calls need it mutably → compute outputs first
+    match op {
+        Op::Apply { ids } => {
+            let enf = vh::acl_apply(&w.mem, ids, ctx.present, ctx.tenant.as_deref(), ctx.subject.as_deref(), &ctx.roles, &ctx.groups, true);
+            let aud = vh::acl_apply(&w.mem, ids, ctx.present, ctx.tenant.as_deref(), ctx.subject.as_deref(), &ctx.roles, &ctx.groups, false);
+            let ck = Checker { w, on, case: case.clone(), known };
+            let show = |r: &Result<(Vec<(u64, usize)>, [usize; 4]), String>| match r {
+                Ok((h, s)) => format!("ok {} {} {} {} {}", whits(h), s[0], s[1], s[2], s[3]),
+                Err(e) if e.contains("acl_context.tenant_id is required") => "err tenant-required".to_string(),
+                Err(e) if e.contains("acl_context is required") => "err context-required".to_string(),
+                Err(e) => format!("err other {e}"),
+            };
+            let (se, sa) = (show(&enf), show(&aud));
+            if has_tenant {
+                match &enf {
+                    Ok((h, _)) => {
+                        let expect: Vec<(u64, usize)> = ids.iter().filter(|i| ck.allowed(**i)).enumerate().map(|(k, i)| (*i, k + 1)).collect();
+                        if *h != expect {
+                            sum.oracle_violation("apply-enforce-not-the-filtered-list", &format!("apply_acl_to_search_hits returned {} but the rule keeps {}", whits(h), whits(&expect)), case.clone());
+                        }
+                        if h.len() < ids.len() { sum.branch("apply-enforce-dropped-some"); nontrivial = true; }
+                        if h.is_empty() && !ids.is_empty() { sum.branch("apply-enforce-dropped-all"); }
+                        if ids.iter().any(|i| *i as usize >= w.metas.len()) { sum.branch("apply-unknown-frame-id"); }
+                    }
+                    Err(e) => sum.oracle_violation("enforce-with-tenant-failed", &format!("apply: {e}"), case.clone()),
+                }
+            } else if enf.is_ok() {
+                sum.oracle_violation("enforce-without-tenant-accepted", "apply_acl_to_search_hits: Enforce without a tenant returned Ok", case.clone());
+            } else { sum.branch("enforce-without-tenant-error"); }
+            match &aud {
+                Ok((h, _)) => {
+                    let same: Vec<(u64, usize)> = ids.iter().enumerate().map(|(k, i)| (*i, k + 1)).collect();
+                    if *h != same { sum.oracle_violation("audit-changed-hits", &format!("apply audit returned {}", whits(h)), case.clone()); }
+                    else { sum.branch("audit-identity"); }
+                }
+                Err(e) => sum.oracle_violation("audit-failed", &format!("apply: {e}"), case.clone()),
+            }
+            if let Some(d) = drv {
+                let me = d.ask(&format!("apply enforce {} {}", ctx.wire(), wids(ids)));
+                let ma = d.ask(&format!("apply audit {} {}", ctx.wire(), wids(ids)));
+                if me != se { sum.disagreement("apply_acl_to_search_hits(Enforce) vs model", case.clone(), &me, &se); }
+                if ma != sa { sum.disagreement("apply_acl_to_search_hits(Audit) vs model", case.clone(), &ma, &sa); }
+            }
+        }
+        Op::Search { query, top_k, as_of_ts } => {
+            let none = w.mem.search(search_req(query, *top_k, *as_of_ts, None, false));
+            let aud = w.mem.search(search_req(query, *top_k, *as_of_ts, acl.clone(), false));
+            let enf = w.mem.search(search_req(query, *top_k, *as_of_ts, acl.clone(), true));
+            let ck = Checker { w, on, case: case.clone(), known };
+            let Ok(none) = none else { sum.branch("search-base-error"); sum.case(&canon, false, || json!({})); return; };
+            if as_of_ts.is_some() { sum.branch("search-early-empty-response"); }
+            match &aud {
+                Ok(a) if canon_search(a) == canon_search(&none) => sum.branch("audit-identity"),
+                Ok(a) => sum.oracle_violation("audit-differs-from-no-acl", &format!("search: audit hits {} vs no-ACL hits {}", whits(&hit_pairs(&a.hits)), whits(&hit_pairs(&none.hits))), case.clone()),
+                Err(e) => sum.oracle_violation("audit-failed", &format!("search: {e}"), case.clone()),
+            }
+            if has_tenant {
+                match &enf {
+                    Ok(e) => {
+                        let ids: Vec<u64> = e.hits.iter().map(|h| h.frame_id).collect();
+                        let mut texts = texts_of(&e.hits); texts.push(&e.context);
+                        ck.no_leak("search", &ids, &texts, sum);
+                        if e.total_hits != e.hits.len() { sum.oracle_violation("enforce-total-hits-counts-denied", &format!("search: total_hits {} but {} hits", e.total_hits, e.hits.len()), case.clone()); }
+                        if e.hits.len() < none.hits.len() { sum.branch("search-enforce-dropped-some"); nontrivial = true; }
+                        if !e.hits.is_empty() { sum.branch("search-enforce-kept-some"); }
+                        if let Some(d) = drv {
+                            let base: Vec<u64> = none.hits.iter().map(|h| h.frame_id).collect();
+                            let m = d.ask(&format!("search enforce {} engine {}", ctx.wire(), wids(&base)));
+                            let imp = format!("ok {} {} ctx={}", whits(&hit_pairs(&e.hits)), e.total_hits, wids(&ids));
+                            if m != imp { sum.disagreement("search(Enforce) vs model on the no-ACL hit list", case.clone(), &m, &imp); }
+                        }
+                    }
+                    Err(e) => sum.oracle_violation("enforce-with-tenant-failed", &format!("search: {e}"), case.clone()),
+                }
+            } else {
+                ck.needs_tenant("search", &enf, sum);
+                if let Some(d) = drv {
+                    let pre = if as_of_ts.is_some() { "early" } else { "engine" };
+                    let base: Vec<u64> = none.hits.iter().map(|h| h.frame_id).collect();
+                    let m = d.ask(&format!("search enforce {} {pre} {}", ctx.wire(), wids(&base)));
+                    let imp = match &enf { Ok(e) => format!("ok {} {} ctx=.", whits(&hit_pairs(&e.hits)), e.total_hits), Err(e) if e.to_string().contains("tenant_id is required") => "err tenant-required".into(), Err(e) if e.to_string().contains("acl_context is required") => "err context-required".into(), Err(e) => format!("err other {e}") };
+                    if m != imp { sum.disagreement("search(Enforce, no tenant) vs model", case.clone(), &m, &imp); }
+                }
+            }
+        }
+        Op::Vec { emb, top_k } => {
+            let none = w.mem.vec_search_with_embedding_acl("q", emb, *top_k, 120, None, None, AclEnforcementMode::Audit);
+            let aud = w.mem.vec_search_with_embedding_acl("q", emb, *top_k, 120, None, acl.as_ref(), AclEnforcementMode::Audit);
+            let enf = w.mem.vec_search_with_embedding_acl("q", emb, *top_k, 120, None, acl.as_ref(), AclEnforcementMode::Enforce);
+            let ck = Checker { w, on, case: case.clone(), known };
+            let Ok(none) = none else { sum.branch("vec-base-error"); sum.case(&canon, false, || json!({})); return; };
+            let early = none.hits.is_empty();
+            if early { sum.branch("vec-early-empty-response"); }
+            match &aud {
+                Ok(a) if canon_search(a) == canon_search(&none) => sum.branch("audit-identity"),
+                Ok(_) => sum.oracle_violation("audit-differs-from-no-acl", "vec search: audit response differs from the no-ACL response", case.clone()),
+                Err(e) => sum.oracle_violation("audit-failed", &format!("vec search: {e}"), case.clone()),
+            }
+            if has_tenant {
+                match &enf {
+                    Ok(e) => {
+                        let ids: Vec<u64> = e.hits.iter().map(|h| h.frame_id).collect();
+                        let mut texts = texts_of(&e.hits); texts.push(&e.context);
+                        ck.no_leak("vec search", &ids, &texts, sum);
+                        if e.hits.len() < none.hits.len() { sum.branch("vec-enforce-dropped-some"); nontrivial = true; }
+                        if !e.hits.is_empty() { sum.branch("vec-enforce-kept-some"); }
+                        if let Some(d) = drv {
+                            let base: Vec<u64> = none.hits.iter().map(|h| h.frame_id).collect();
+                            let m = d.ask(&format!("vec enforce {} {} {}", ctx.wire(), if early { "novec" } else { "conv" }, wids(&base)));
+                            let imp = format!("ok {} {} ctx={}", whits(&hit_pairs(&e.hits)), e.total_hits, wids(&ids));
+                            if m != imp { sum.disagreement("vec_search_with_embedding_acl(Enforce) vs model on the no-ACL hit list", case.clone(), &m, &imp); }
+                        }
+                    }
+                    Err(e) => sum.oracle_violation("enforce-with-tenant-failed", &format!("vec search: {e}"), case.clone()),
+                }
+            } else {
+                ck.needs_tenant("vec_search_with_embedding_acl", &enf, sum);
+                if let Some(d) = drv {
+                    let base: Vec<u64> = none.hits.iter().map(|h| h.frame_id).collect();
+                    let m = d.ask(&format!("vec enforce {} {} {}", ctx.wire(), if early { "novec" } else { "conv" }, wids(&base)));
+                    let imp = match &enf { Ok(e) => format!("ok {} {} ctx=.", whits(&hit_pairs(&e.hits)), e.total_hits), Err(e) if e.to_string().contains("tenant_id is required") => "err tenant-required".into(), Err(e) if e.to_string().contains("acl_context is required") => "err context-required".into(), Err(e) => format!("err other {e}") };
+                    if m != imp { sum.disagreement("vec_search_with_embedding_acl(Enforce, no tenant) vs model", case.clone(), &m, &imp); }
+                }
+            }
+        }
+        Op::Adaptive { emb, enabled, max_results, min_results } => {
+            let mut cfg = AdaptiveConfig::default();
+            cfg.enabled = *enabled; cfg.max_results = *max_results; cfg.min_results = *min_results;
+            let none = w.mem.search_adaptive_acl("q", emb, cfg.clone(), 120, None, None, AclEnforcementMode::Audit);
+            let aud = w.mem.search_adaptive_acl("q", emb, cfg.clone(), 120, None, acl.as_ref(), AclEnforcementMode::Audit);
+            let enf = w.mem.search_adaptive_acl("q", emb, cfg.clone(), 120, None, acl.as_ref(), AclEnforcementMode::Enforce);
+            let venf = w.mem.vec_search_with_embedding_acl("q", emb, *max_results, 120, None, acl.as_ref(), AclEnforcementMode::Enforce);
+            let ck = Checker { w, on, case: case.clone(), known };
+            let Ok(none) = none else { sum.branch("adaptive-base-error"); sum.case(&canon, false, || json!({})); return; };
+            match &aud {
+                Ok(a) if serde_json::to_value(&a.results).unwrap() == serde_json::to_value(&none.results).unwrap() => sum.branch("audit-identity"),
+                Ok(_) => sum.oracle_violation("audit-differs-from-no-acl", "adaptive search: audit results differ from the no-ACL results", case.clone()),
+                Err(e) => sum.oracle_violation("audit-failed", &format!("adaptive search: {e}"), case.clone()),
+            }
+            if has_tenant {
+                match (&enf, &venf) {
+                    (Ok(e), Ok(v)) => {
+                        let ids: Vec<u64> = e.results.iter().map(|h| h.frame_id).collect();
+                        ck.no_leak("adaptive search", &ids, &texts_of(&e.results), sum);
+                        if e.results.len() < none.results.len() { sum.branch("adaptive-enforce-dropped-some"); nontrivial = true; }
+                        if let Some(d) = drv {
+                            // the cut-off is an input of the model: taken from the public find_adaptive_cutoff on the filtered scores
+                            let scores: Vec<f32> = v.hits.iter().filter_map(|h| h.score).collect();
+                            let k = if !*enabled || v.hits.is_empty() || scores.is_empty() { "~".to_string() } else { find_adaptive_cutoff(&scores, &cfg).0.to_string() };
+                            if k != "~" { sum.branch("adaptive-cutoff-applied"); }
+                            let base: Vec<u64> = v.hits.iter().map(|h| h.frame_id).collect();
+                            // the filter already ran inside vec search: feed the filtered list through a context that allows all of it
+                            let m = d.ask(&format!("adaptive audit 0 ~ ~ . . {} {} {k}", if base.is_empty() { "novec" } else { "conv" }, wids(&base)));
+                            let imp = format!("ok {}", whits(&hit_pairs(&e.results)));
+                            if m != imp { sum.disagreement("search_adaptive_acl(Enforce) vs model cut of the filtered vector hits", case.clone(), &m, &imp); }
+                        }
+                    }
+                    (Err(e), _) => sum.oracle_violation("enforce-with-tenant-failed", &format!("adaptive search: {e}"), case.clone()),
+                    _ => {}
+                }
+            } else {
+                ck.needs_tenant("search_adaptive_acl", &enf, sum);
+            }
+        }
+        Op::Ask { question, top_k, mode, context_only, embedder, adaptive } => {
+            let mk = |ctx: Option<AclContext>, enforce: bool| AskRequest {
+                question: question.clone(), top_k: *top_k, snippet_chars: 120, uri: None, scope: None, cursor: None,
+                start: None, end: None, context_only: *context_only,
+                mode: match mode.as_str() { "lex" => AskMode::Lex, "sem" => AskMode::Sem, _ => AskMode::Hybrid },
+                as_of_frame: None, as_of_ts: None,
+                adaptive: if *adaptive { Some(AdaptiveConfig::default()) } else { None },
+                acl_context: ctx, acl_enforcement_mode: mode_of(enforce),
+            };
+            let stub = Stub;
+            let emb: Option<&Stub> = if *embedder { Some(&stub) } else { None };
+            let none = w.mem.ask(mk(None, false), emb);
+            let aud = w.mem.ask(mk(acl.clone(), false), emb);
+            let enf = w.mem.ask(mk(acl.clone(), true), emb);
+            let ck = Checker { w, on, case: case.clone(), known };
+            let Ok(none) = none else { sum.branch("ask-base-error"); sum.case(&canon, false, || json!({})); return; };
+            sum.branch(&format!("ask-retriever-{:?}", none.retriever));
+            let idset = |r: &AskResponse| { let mut v: Vec<u64> = r.retrieval.hits.iter().map(|h| h.frame_id).collect(); v.sort(); v };
+            match &aud {
+                Ok(a) => {
+                    // fusion breaks score ties by HashMap order: compare the hit SETS, and only when no truncation can occur
+                    let n = w.metas.len();
+                    let comparable = *top_k >= n;
+                    if comparable && idset(a) != idset(&none) {
+                        sum.oracle_violation("audit-differs-from-no-acl", &format!("ask: audit frames {:?} vs no-ACL frames {:?}", idset(a), idset(&none)), case.clone());
+                    } else if a.retrieval.hits.len() != none.retrieval.hits.len() {
+                        sum.oracle_violation("audit-differs-from-no-acl", &format!("ask: audit returns {} hits, no-ACL {}", a.retrieval.hits.len(), none.retrieval.hits.len()), case.clone());
+                    } else { sum.branch("audit-identity"); }
+                }
+                Err(e) => sum.oracle_violation("audit-failed", &format!("ask: {e}"), case.clone()),
+            }
+            if has_tenant {
+                match &enf {
+                    Ok(e) => {
+                        let mut ids: Vec<u64> = e.retrieval.hits.iter().map(|h| h.frame_id).collect();
+                        let hit_ids = ids.clone();
+                        ids.extend(e.citations.iter().map(|c| c.frame_id));
+                        ids.extend(e.context_fragments.iter().map(|f| f.frame_id));
+                        let mut texts = texts_of(&e.retrieval.hits);
+                        texts.push(&e.retrieval.context);
+                        for f in &e.context_fragments { texts.push(&f.text); texts.push(&f.uri); }
+                        for c in &e.citations { texts.push(&c.uri); }
+                        if let Some(a) = &e.answer { texts.push(a); }
+                        ck.no_leak("ask", &ids, &texts, sum);
+                        // citations and fragments are derived from the filtered hits, in order
+                        let frag_ids: Vec<u64> = e.context_fragments.iter().map(|f| f.frame_id).collect();
+                        if frag_ids != hit_ids { sum.oracle_violation("ask-fragments-not-from-filtered-hits", &format!("fragments {frag_ids:?} vs hits {hit_ids:?}"), case.clone()); }
+                        let cit_ids: Vec<u64> = e.citations.iter().map(|c| c.frame_id).collect();
+                        if !*context_only && cit_ids != hit_ids { sum.oracle_violation("ask-citations-not-from-filtered-hits", &format!("citations {cit_ids:?} vs hits {hit_ids:?}"), case.clone()); }
+                        if *context_only && !cit_ids.is_empty() { sum.oracle_violation("ask-citations-not-from-filtered-hits", "context_only response carries citations", case.clone()); }
+                        if e.retrieval.total_hits != e.retrieval.hits.len() { sum.oracle_violation("enforce-total-hits-counts-denied", &format!("ask: total_hits {} but {} hits", e.retrieval.total_hits, e.retrieval.hits.len()), case.clone()); }
+                        if e.retrieval.hits.len() < none.retrieval.hits.len() { sum.branch("ask-enforce-dropped-some"); nontrivial = true; }
+                        if !e.retrieval.hits.is_empty() { sum.branch("ask-enforce-kept-some"); }
+                        if !e.citations.is_empty() { sum.branch("ask-citations-present"); }
+                        if let Some(d) = drv {
+                            // structure after the ACL step: model `ask` on the surviving list must reproduce ranks/citations/fragments
+                            let m = d.ask(&format!("ask audit 0 ~ ~ . . {} ranked {}", if *context_only { 1 } else { 0 }, wids(&hit_ids)));
+                            let cit = if e.citations.is_empty() { ".".to_string() } else { e.citations.iter().map(|c| format!("{}:{}", c.index, c.frame_id)).collect::<Vec<_>>().join(",") };
+                            let frag = if e.context_fragments.is_empty() { ".".to_string() } else { e.context_fragments.iter().map(|f| format!("{}:{}", f.rank, f.frame_id)).collect::<Vec<_>>().join(",") };
+                            let imp = format!("ok {} {} ctx={} cit={cit} frag={frag}", whits(&hit_pairs(&e.retrieval.hits)), e.retrieval.total_hits, wids(&hit_ids));
+                            if m != imp { sum.disagreement("ask(Enforce) response structure vs model", case.clone(), &m, &imp); }
+                        }
+                    }
+                    Err(e) => sum.oracle_violation("enforce-with-tenant-failed", &format!("ask: {e}"), case.clone()),
+                }
+            } else {
+                ck.needs_tenant("ask", &enf, sum);
+            }
+        }
+    }
+    sum.case(&canon, nontrivial, || case.clone());
+}
+
+fn run_case(c: &Case, drv: &mut Option<Driver>, sum: &mut Summary, known: &BTreeSet<String>) {
+    match c {
+        Case::Scalar { value } => run_scalar(value, drv, sum),
+        Case::List { value } => run_list(value, drv, sum),
+        Case::Eval { meta, ctx } => run_eval(meta, ctx, drv, sum),
+        Case::E2e { frames, vec, ctx, op } => {
+            match build_world(frames, *vec) {
+                Ok(mut w) => {
+                    if let Some(d) = drv { load_model_frames(&w, d); }
+                    run_e2e_op(&mut w, ctx, op, serde_json::to_value(c).unwrap(), drv, sum, known);
+                }
+                Err(e) => { sum.notes.push(format!("world not built: {e}")); sum.branch("world-build-failed"); }
+            }
+        }
+    }
+}
+
+fn corpus() -> Vec<Case> {
+    let s = |x: &str| Some(x.to_string());
+    let m = |kv: &[(&str, &str)]| -> Meta { kv.iter().map(|(k, v)| (k.to_string(), v.to_string())).collect() };
+    let c = |t: Option<&str>, sub: Option<&str>, r: &[&str], g: &[&str]| Ctx { present: true, tenant: t.map(String::from), subject: sub.map(String::from), roles: r.iter().map(|x| x.to_string()).collect(), groups: g.iter().map(|x| x.to_string()).collect() };
+    let restricted = m(&[("acl_tenant_id", "tenant-a"), ("acl_visibility", "restricted"), ("acl_read_roles", "[\"admin\",\"analyst\"]"), ("acl_read_groups", "[\"eng\"]"), ("acl_read_principals", "[\"user-123\"]")]);
+    let mut v = vec![
+        Case::Scalar { value: None }, Case::Scalar { value: s("") }, Case::Scalar { value: s(" \"Restricted\" ") },
+        Case::Scalar { value: s("\"\\ud83d\\ude00\"") }, Case::Scalar { value: s("\"\\ud800\"") }, Case::Scalar { value: s("\" \"") },
+        Case::Scalar { value: s("\"\\\"Admin\\\"\"") }, Case::Scalar { value: s("\u{a0}X\u{3000}") },
+        Case::List { value: None }, Case::List { value: s("[]") }, Case::List { value: s("eng,ops") }, Case::List { value: s("[\"a\",]") },
+        Case::List { value: s("[\"\"]") }, Case::List { value: s(" [ \"A\" , \"\\\"b\\\"\" ] ") },
+        Case::Eval { meta: restricted.clone(), ctx: c(Some("tenant-b"), Some("user-123"), &["viewer"], &["eng"]) },
+        Case::Eval { meta: restricted.clone(), ctx: c(Some("Tenant-A"), Some("user-123"), &["viewer"], &[]) },
+        Case::Eval { meta: restricted.clone(), ctx: c(Some("tenant-a"), Some("bob"), &["viewer"], &["sales"]) },
+        Case::Eval { meta: restricted.clone(), ctx: c(Some("tenant-a"), None, &["ADMIN"], &[]) },
+        Case::Eval { meta: Meta::new(), ctx: c(Some("tenant-a"), None, &[], &[]) },
+        Case::Eval { meta: m(&[("acl_tenant_id", "tenant-a"), ("acl_visibility", "\"Public\"")]), ctx: c(Some("\"TENANT-A\""), None, &[], &[]) },
+        Case::Eval { meta: m(&[("acl_tenant_id", "tenant-a"), ("acl_visibility", "public"), ("acl_read_groups", "eng,ops")]), ctx: c(Some("tenant-a"), None, &[], &[]) },
+        Case::Eval { meta: restricted.clone(), ctx: c(None, Some("user-123"), &[], &[]) },
+        Case::Eval { meta: restricted.clone(), ctx: Ctx::absent() },
+    ];
+    // end to end: a fixed small world; every entry point; a caller with a tenant and callers without one
+    let frames: Vec<FrameDef> = (0..5).map(|i| FrameDef {
+        text: format!("memo {} alpha beta budget note{i} the current budget is {}", marker(i), 100 + i),
+        uri: Some(if i == 4 { format!("mv2://correction/{i}") } else { format!("mv2://doc/{i}") }),
+        ts: 1_700_000_000 + i as i64 * 86_400,
+        meta: match i {
+            0 => m(&[("acl_tenant_id", "t1"), ("acl_visibility", "public")]),
+            1 => m(&[("acl_tenant_id", "t2"), ("acl_visibility", "public")]),
+            2 => m(&[("acl_tenant_id", "T1"), ("acl_visibility", "\"restricted\""), ("acl_read_roles", "[\"Admin\"]")]),
+            3 => m(&[("acl_tenant_id", "t1"), ("acl_visibility", "restricted"), ("acl_read_groups", "eng")]),
+            _ => Meta::new(),
+        },
+        emb: Some(vec![1.0, i as f32 * 0.25, 0.0, 0.5]),
+    }).collect();
+    let ops = vec![
+        Op::Apply { ids: vec![0, 1, 2, 3, 4, 7, 0] },
+        Op::Search { query: "alpha".into(), top_k: 8, as_of_ts: None },
+        Op::Search { query: "alpha".into(), top_k: 8, as_of_ts: Some(-5) },
+        Op::Vec { emb: vec![1.0, 0.5, 0.0, 0.5], top_k: 5 },
+        Op::Vec { emb: vec![1.0, 0.5, 0.0, 0.5], top_k: 0 },
+        Op::Adaptive { emb: vec![1.0, 0.5, 0.0, 0.5], enabled: true, max_results: 5, min_results: 1 },
+        Op::Adaptive { emb: vec![1.0, 0.5, 0.0, 0.5], enabled: true, max_results: 0, min_results: 1 },
+        Op::Ask { question: "what is the current budget".into(), top_k: 8, mode: "hybrid".into(), context_only: false, embedder: true, adaptive: false },
+        Op::Ask { question: "xylophone quartz".into(), top_k: 8, mode: "lex".into(), context_only: true, embedder: false, adaptive: false },
+    ];
+    for ctx in [c(Some("t1"), None, &["admin"], &[]), c(None, Some("bob"), &[], &[]), Ctx::absent()] {
+        for op in &ops {
+            v.push(Case::E2e { frames: frames.clone(), vec: true, ctx: ctx.clone(), op: op.clone() });
+        }
+    }
+    v
+}
+
 fn main() {
-    println!("{:?}", vh::acl_normalize_scalar(Some(" \"Ab\" ")));
+    let args = parse_args();
+    let mut drv: Option<Driver> = if args.driver.as_os_str() == "none" { None } else { Some(Driver::spawn(&args.driver).expect("spawn driver")) };
+    let known: BTreeSet<String> = args.extra.get("known").map(|s| s.split(',').filter(|x| !x.is_empty() && *x != "-").map(String::from).collect()).unwrap_or_default();
+    let mut sum = Summary::new("C12", &args,
+        "stream A: scalars / allow-lists / (metadata × caller context) drawn from valid, JSON-quoted (random escape styles, \\uXXXX, surrogate pairs), \
+         padded (12 Unicode white-space characters), mixed-case, doubly quoted, malformed JSON and random character soup, against normalize_scalar / \
+         parse_acl_list / parse_acl_metadata / normalize_acl_context / evaluate_acl_metadata; stream B: real .mv2 files (3-10 frames, random ACL \
+         extra_metadata, optional embeddings, correction URIs) × caller contexts × {apply_acl_to_search_hits, search, vec search, adaptive, ask} in \
+         no-ACL / Audit / Enforce; non-trivial = caller has a tenant (A) or Enforce dropped at least one hit (B); distinct = canonical case text");
+    sum.expect_branches(&["scalar-json-unwrapped", "scalar-quote-but-not-json", "scalar-unicode-escape", "list-rejected", "list-some", "list-empty",
+        "eval-allow", "eval-deny:cross-tenant", "eval-deny:missing-metadata", "eval-deny:restricted", "eval-no-tenant-context", "meta-rejected",
+        "apply-enforce-dropped-some", "apply-unknown-frame-id", "search-enforce-dropped-some", "search-enforce-kept-some", "vec-enforce-dropped-some",
+        "adaptive-enforce-dropped-some", "ask-enforce-dropped-some", "ask-enforce-kept-some", "ask-citations-present", "audit-identity",
+        "enforce-without-tenant-error", "search-early-empty-response", "vec-early-empty-response"]);
+    if args.mode == "replay" {
+        let case = load_replay(args.replay_file.as_ref().expect("replay file"));
+        let input = case.get("input").unwrap_or(&case);
+        let c: Case = serde_json::from_value(input.clone()).expect("replay input is not a C12 case");
+        println!("case : {}", serde_json::to_string(&c).unwrap());
+        run_case(&c, &mut drv, &mut sum, &known);
+        println!("oracle violations: {}", serde_json::to_string(&sum.oracle_violations).unwrap());
+        println!("disagreements    : {}", serde_json::to_string(&sum.disagreements).unwrap());
+        println!("known findings   : {:?}", sum.known.keys().collect::<Vec<_>>());
+        sum.finish(&args);
+    }
+    let t0 = std::time::Instant::now();
+    let timing = std::env::var("C12_TIMING").is_ok();
+    // fixed corpus first; its end-to-end cases share one world (they all carry the same frames)
+    let mut shared: Option<(String, World)> = None;
+    for c in corpus() {
+        if let Case::E2e { frames, vec, ctx, op } = &c {
+            let key = serde_json::to_string(&(frames, vec)).unwrap();
+            if shared.as_ref().map(|(k, _)| k != &key).unwrap_or(true) {
+                match build_world(frames, *vec) {
+                    Ok(w) => { if let Some(d) = &mut drv { load_model_frames(&w, d); } shared = Some((key, w)); }
+                    Err(e) => { sum.notes.push(format!("world not built: {e}")); sum.branch("world-build-failed"); continue; }
+                }
+            }
+            let w = &mut shared.as_mut().unwrap().1;
+            run_e2e_op(w, ctx, op, serde_json::to_value(&c).unwrap(), &mut drv, &mut sum, &known);
+        } else {
+            run_case(&c, &mut drv, &mut sum, &known);
+        }
+    }
+    drop(shared);
+    if timing { eprintln!("corpus done {:?}", t0.elapsed()); }
+    let mut rng = Rng::new(args.seed);
+    let (n_scalar, n_list, n_eval, n_worlds, ops_per_world) = if args.thorough { (20000, 8000, 30000, 120, 24) } else { (3000, 1500, 5000, 5, 16) };
+    for _ in 0..n_scalar { let v = gen_scalar(&mut rng); run_scalar(&v, &mut drv, &mut sum); }
+    for _ in 0..n_list {
+        let v = if rng.chance(1, 20) { None } else if rng.chance(1, 6) { gen_scalar(&mut rng) } else { Some(gen_list_raw(&mut rng, WORDS)) };
+        run_list(&v, &mut drv, &mut sum);
+    }
+    for _ in 0..n_eval { let m = gen_meta(&mut rng); let c = gen_ctx(&mut rng); run_eval(&m, &c, &mut drv, &mut sum); }
+    if timing { eprintln!("stream A done {:?}", t0.elapsed()); }
+    for _ in 0..n_worlds {
+        if timing { eprintln!("world {:?}", t0.elapsed()); }
+        let vec = rng.chance(2, 3);
+        let frames = gen_frames(&mut rng, vec);
+        let mut w = match build_world(&frames, vec) {
+            Ok(w) => w,
+            Err(e) => { sum.notes.push(format!("world not built: {e}")); sum.branch("world-build-failed"); continue; }
+        };
+        if let Some(d) = &mut drv { load_model_frames(&w, d); }
+        for _ in 0..ops_per_world {
+            let ctx = gen_ctx_e2e(&mut rng);
+            let op = gen_op(&mut rng, frames.len(), vec);
+            let case = serde_json::to_value(Case::E2e { frames: frames.clone(), vec, ctx: ctx.clone(), op: op.clone() }).unwrap();
+            run_e2e_op(&mut w, &ctx, &op, case, &mut drv, &mut sum, &known);
+        }
+    }
+    if let Some(d) = &drv { sum.model_requests = d.requests; }
+    sum.finish(&args);
 }
